@@ -132,3 +132,25 @@ OK.update({
 FAIL.update({
     'f_deep_expr': (False, ["  ;$ " + "+ 2*w " * 1200 + "\n"]),
 })
+
+# source errors that surface LATE: the word does not fit the width, which only the writer's struct.pack notices -
+# after the output file has been opened (at w=16; at the wider widths these programs simply assemble)
+FAIL.update({
+    'f_late_word': (False, ["  ;0\n  ;1<<20\n"]),
+    'f_late_wflip': (False, ["  ;0\nx:\n  wflip 1<<20, 5\n"]),
+})
+
+
+# moderately deep label expressions: they assemble under the default limits (2 python frames per term), and are the
+# probes that notice a recursion limit LOWERED by an earlier call (f_deep_expr notices a raised one)
+def _expr_program(terms):
+    # a forward label inside the expression: it can only be evaluated in the labels-resolve stage, after the
+    # preprocessor has finished
+    return ";code\ncode:\n    ;(" + "+".join(["t"] * terms) + ")*0 + end\nt:\nend:\n    ;end\n"
+
+
+OK.update({
+    'n_expr80': (False, [_expr_program(80)]),
+    'n_expr300': (False, [_expr_program(300)]),
+    'n_expr80_here': (False, ["  ;$ " + "+ 2*w " * 80 + "\n"]),
+})
